@@ -177,7 +177,7 @@ def register(M):
                 log(ex, 'user_pending', what=what)
                 return M.poll_pending(dty)
             if outcome == 'panic':
-                log(ex, 'user_panics', what=what)
+                log(ex, 'user_panics', what=what, hook=ex.env.get('panic_hook'))
                 raise UserPanic(what, 'poll')
             if on_done is not None:
                 on_done(ex)
